@@ -1238,10 +1238,12 @@ class XsdElement(XsdComponent, ParticleMixin,
                     any(other.name == x.name for x in self.iter_substitutes()):
                 return True  # a member of a multi-level substitution group
         elif isinstance(other, XsdAnyElement):
-            if other.is_matching(self.name, self.default_namespace):
+            # The names of the declarations are expanded names: a name without
+            # a namespace part is not in the default namespace of the schema.
+            if other.is_matching(self.name):
                 return True
             for e in self.maps.substitution_groups.get(self.name, ()):
-                if other.is_matching(e.name, self.default_namespace):
+                if other.is_matching(e.name):
                     return True
         return False
 
@@ -1402,10 +1404,12 @@ class Xsd11Element(XsdElement):
                     return True
 
         elif isinstance(other, XsdAnyElement):
-            if other.is_matching(self.name, self.default_namespace):
+            # The names of the declarations are expanded names: a name without
+            # a namespace part is not in the default namespace of the schema.
+            if other.is_matching(self.name):
                 return True
             for e in self.maps.substitution_groups.get(self.name, ()):
-                if other.is_matching(e.name, self.default_namespace):
+                if other.is_matching(e.name):
                     return True
         return False
 
